@@ -183,13 +183,16 @@ structure Table where
   raw : Frame
   deriving DecidableEq, Repr
 
-/-- `_parse_table(content, suffix)`. -/
-def parseChunk (kind : Kind) (chunk : List Str) : Except Err Table :=
+/-- `_parse_table(content, suffix, nolabel=nolabel)`: `nolabel` matters for the generic table type
+    only (`header=None if nolabel else 'infer'`); ext/phi/cov tables always have a header line. -/
+def parseChunk (kind : Kind) (nolabel : Bool) (chunk : List Str) : Except Err Table :=
   match chunk with
   | [] => .error .illegalFile
   | tl :: content =>
     let frame := match kind with
-      | .generic => readFrame (dropRepeatedHeaders content)
+      | .generic =>
+        if nolabel then readFrameNoHeader (dropRepeatedHeaders content)
+        else readFrame (dropRepeatedHeaders content)
       | _ => readFrame (content.map subOBJ)
     match frame with
     | .error e => .error e
@@ -198,16 +201,15 @@ def parseChunk (kind : Kind) (chunk : List Str) : Except Err Table :=
       | .error e => .error e
       | .ok m => .ok ⟨some m, kind, raw⟩
 
-/-- `NONMEMTableFile(path, notitle=…, nolabel=…)` on the lines of the file.  `nolabel` reaches
-    `_parse_table` only on the `notitle` path (the loop over `TABLE NO.` chunks calls
-    `_parse_table(current, suffix)`), where the generic table is then read without a header. -/
+/-- `NONMEMTableFile(path, notitle=…, nolabel=…)` on the lines of the file; `nolabel` is passed to
+    `_parse_table` on both paths (f017b8d). -/
 def parseFile (kind : Kind) (notitle nolabel : Bool) (lines : List Str) : Except Err (List Table) :=
   if notitle then
     let content := dropRepeatedHeaders lines
     match (if nolabel then readFrameNoHeader content else readFrame content) with
     | .error e => .error e
     | .ok raw => .ok [⟨none, .generic, raw⟩]
-  else (splitTables lines).mapM (parseChunk kind)
+  else (splitTables lines).mapM (parseChunk kind nolabel)
 
 /-- `NONMEMTableFile.table_no(n)`. -/
 def tableNo (ts : List Table) (n : Nat) : Option Table :=
